@@ -2,11 +2,12 @@
   C04 — JSON mode: each record is one line of valid JSON decoding to what was logged.
 
   Proved here, for the encoder model tied byte for byte to the code: the JSON escaper is safe for ALL byte
-  strings (well-formed string body, no control byte), and a whole record is one line. That the nested
-  structure is a valid JSON object decoding to the logged values is decided per generated record by the
-  encoding/json oracle — see DESIGN.md.
+  strings (well-formed string body, no control byte), every valid UTF-8 string decodes back to itself,
+  and a whole record is one line. That the nested structure is a valid JSON object decoding to the
+  logged values is decided per generated record by the encoding/json oracle — see DESIGN.md.
 -/
 import Logg.Lemmas.EncoderClean
+import Logg.Lemmas.JsonRoundTrip
 
 namespace Logg.Props.C04
 open Logg Logg.Lemmas
@@ -19,6 +20,12 @@ theorem json_string_wellformed (s : Bytes) :
     ∃ body, jsonQuote s = 34 :: body ++ [34] ∧ jsonBodyOK body = true := jsonQuote_wellformed s
 
 theorem json_string_has_no_control_byte (s : Bytes) : NoC0 (jsonQuote s) := jsonQuote_noC0 s
+
+/-- (1') Value preservation for strings: what `encoding/json` reads from the written literal is the
+    logged value byte for byte, whenever that value is valid UTF-8 — for all such strings (quotes,
+    backslashes, CR/LF, every control character, U+2028/U+2029, astral runes included). -/
+theorem json_string_decodes_back (s : Bytes) (h : isValidUtf8 s = true) : jsonUnquote (jsonQuote s) = some s :=
+  jsonUnquote_jsonQuote s h
 
 /-- keys are written through the same escaper -/
 theorem json_keys_are_escaped (isPrint : Nat → Bool) (k : Bytes) :
